@@ -74,6 +74,8 @@ type SchedD struct {
 	WaitDelay int `json:"wait_delay,omitempty"`
 	// SharedErr: every failing job returns one and the same error value.
 	SharedErr bool `json:"shared_err,omitempty"`
+	// SlowEmit: the Emitter holds its caller for one simulator step per report.
+	SlowEmit bool `json:"slow_emit,omitempty"`
 }
 
 // Desc is the complete, self-describing input of one simulated run.
@@ -231,6 +233,7 @@ func Generate(rng *rand.Rand, prop, tier string, gomaxprocs int) *Desc {
 		if s.Emitter {
 			s.FreqSteps = rng.Intn(5)
 			s.FreqOdd = 2*rng.Intn(1<<19) + 1
+			s.SlowEmit = rng.Intn(3) == 0
 		}
 		if rng.Intn(cancelP) == 0 {
 			s.CancelMode = 1 + rng.Intn(3)
